@@ -319,6 +319,32 @@ def vReduceMeanAxes (g : DG) (o : DOp) : Option Fus :=
       else none
     | none => none
 
+/-- is the operator `oid` a `Cast` to float (`cast_to_float`, fix 37b9d6f) -/
+def castToFloat (g : DG) (oid : Nat) : Bool :=
+  match g.op? oid with
+  | some c => c.ty == "Cast" && c.attr "to" == some [1]
+  | none => false
+
+/-- `MatMulIntegerToFloatFusion`: the Cast produces floats, the scale's shape is known with rank ≤ 1. -/
+def vMatMulInt (g : DG) (o : DOp) : Option Fus :=
+  patFusion g o matmulIntPat "MatMulIntegerToFloat" ["a", "b", "a_zero", "b_zero", "scale"] fun s =>
+    match s.find "cast", s.find "scale" with
+    | some c, some sc =>
+      match g.shape sc with
+      | some sh => if castToFloat g c && sh.length ≤ 1 then some [] else none
+      | none => none
+    | _, _ => none
+
+/-- `ConvIntegerToFloatFusion`: the Cast produces floats, the scale has shape `[]` or `[1]`. -/
+def vConvInt (g : DG) (o : DOp) : Option Fus :=
+  patFusion g o convIntPat "ConvIntegerToFloat" ["x", "w", "x_zero", "w_zero", "scale"] fun s =>
+    match s.find "cast", s.find "scale" with
+    | some c, some sc =>
+      match g.shape sc with
+      | some sh => if castToFloat g c && (sh == [] || sh == ["1"]) then some [] else none
+      | none => none
+    | _, _ => none
+
 /-- `RepeatInterleaveFusion` (fixed code, c04060d): shapes of `x` and of the Reshape output known and
 of equal rank, exactly one axis differs, both sizes fixed, output a multiple of input; the Unsqueeze
 inserts the new axis directly after the repeated axis; `x` is a float tensor. -/
@@ -385,7 +411,9 @@ def visitorsMain : List (DG → DOp → Option Fus) :=
       | _, _ => none,
     fun g o => patFusion g o geluPat "Gelu" ["x"] fun _ => some [("approx", [0])],
     fun g o => patFusion g o approxGeluPat "Gelu" ["x"] fun _ => some [("approx", [1])],
-    vLayerNorm, vRmsNorm, vMatMulAdd, vMatMulScale,
+    vLayerNorm, vRmsNorm, vMatMulAdd, vMatMulScale, vMatMulInt,
+    -- (ConvAddFusion sits here in the code's list; it is not modelled: graphs with Conv are model skips)
+    vConvInt,
     fun g o => patFusion g o safeSoftmaxPat "Softmax" ["x"] fun s =>
       ((s.find "softmax").bind g.op?).map fun so => so.attrs ++ [("flush", [1])],
     fun g o => patFusion g o addSoftmaxPat "AddSoftmax" ["qk", "mask"] fun s =>
@@ -504,7 +532,7 @@ def applyFusions (g : DG) (visitors : List (DG → DOp → Option Fus)) : DG × 
 
 def knownTypes : List String :=
   ["Add", "Sub", "Mul", "Div", "Identity", "Cast", "Neg", "Abs", "Relu", "Sigmoid", "Erf", "Tanh", "Pow", "Sqrt",
-   "Reciprocal", "ReduceMean", "Softmax", "IsNaN", "Where", "MatMul", "If", "Transpose", "Concat", "Expand", "Slice", "Split", "Unsqueeze", "Reshape"]
+   "Reciprocal", "ReduceMean", "Softmax", "IsNaN", "Where", "MatMul", "If", "Transpose", "Concat", "Expand", "Slice", "Split", "Unsqueeze", "Reshape", "MatMulInteger", "ConvInteger"]
 
 def isConstV (g : DG) (v : Nat) : Bool := g.consts.any (·.id == v)
 
